@@ -188,6 +188,29 @@ def r9_3(ctx):
     rsd = _sdf(pr.node)
     upd = [c for c in walk_local(pr.node) if isinstance(c, ast.Call) and norm(c.func) == "options.update" and kwarg(c, "width") is not None]
     ok = len(upd) == 1 and _leq(_lin(_inl(kwarg(upd[0], "width"), rsd, keep=("width",))), {"width": 1, "self.left": -1, "self.right": -1})
+    if not ok and len(upd) == 1:
+        # the same relation with the data flow the other way round (child width first, frame = child + left + right): compare the
+        # value forms of the frame width and of the child's width at the call (a variable set on several paths cancels against itself)
+        from ..linewidth import WidthEnv as _WE
+        env93 = _WE(pr)
+        nid93 = env93.nid(upd[0])
+        child93 = env93.val(kwarg(upd[0], "width"), nid93)
+        frames = [x for x in walk_local(pr.node) if isinstance(x, ast.BinOp) and isinstance(x.op, ast.Mult) and isinstance(x.left, ast.Constant) and x.left.value == " " and isinstance(x.right, ast.Name)]
+        fw = {norm(x.right) for x in frames} - {"self.left", "self.right"}
+        fw = {n_ for n_ in fw if not _leq(env93.val(ast.Name(id=n_, ctx=ast.Load()), nid93), {"self.left": 1}) and not _leq(env93.val(ast.Name(id=n_, ctx=ast.Load()), nid93), {"self.right": 1})}
+        if len(fw) != 1:
+            raise AnalysisError("Padding.__rich_console__: cannot tell which variable is the frame width (the width of the blank lines)")
+        frame93 = env93.val(ast.Name(id=fw.pop(), ctx=ast.Load()), nid93)
+        diff = dict(frame93)
+        for k_, v_ in child93.items():
+            diff[k_] = diff.get(k_, 0) - v_
+        diff = {k_: v_ for k_, v_ in diff.items() if v_}
+        if _leq(diff, {"self.left": 1, "self.right": 1}):
+            ok = True
+        elif all("@" not in k_ for k_ in diff):
+            ok = False
+        else:
+            raise AnalysisError(f"Padding.__rich_console__: frame width minus child width is `{diff}`; not decided")
     ctx.check(ok, pr.fq, "render subtracts left + right", pr.where, "render subtracts the same left + right", "Padding render no longer subtracts left + right from the width")
     pn = ctx.repo.fn("panel:Panel.__rich_measure__")
     s = norm(pn.node)
